@@ -95,12 +95,20 @@ REFINE = {
 }
 
 def refine_text(pid):
+    if pid == "C13":
+        return (" Transaction level (SatG): twin_withdraw / twin_liquidate / twin_payFunding prove, for every world, that the native deployment's whole "
+                "transaction EQUALS the cw20 deployment's mapped to native form (outcome incl. error value, engine and vAMM state, balances, transfer list); "
+                "twin_deposit, twin_open_increase(_outcome) and twin_close_whole prove agreement of engine state, vAMM state and every account's balance when "
+                "the native caller attaches exactly what the cw20 run pulls (flat / same-side opens; whole closes without vault shortfall and with the fee "
+                "payable up front); the recorded findings F10a/b/c and one more divergence are kernel-evaluated witness worlds (SatGWitness).")
     if pid not in REFINE:
         return ""
     return (f" Refinement layer: {REFINE[pid]} proves, for every world, block, sender, funds and transaction, that the observation record of the "
             f"MODEL's step (Props.ModelStep.modelStep) satisfies the same decidable predicate Spec.{pid}.check that this check evaluates on the "
             "implementation's observations (hypotheses: invariants proved preserved by World.step, deployment wiring, or preconditions of the "
-            "property; each with a kernel-evaluated witness that it is needed; see DESIGN.md §7.1).")
+            "property; each with a kernel-evaluated witness that it is needed; see DESIGN.md §7.1). Capstone.reachable_sat / history_sat: along every "
+            "history of user transactions from a deployment (side conditions SideOK at each step) every tag of every Spec check of the model's step is "
+            "one of the five tags of the recorded findings, and this property's check is [] where it has no recorded finding.")
 
 NOT_YET = "not claimed in this commit: world-level model/theorems under construction (DESIGN.md §8 build order)"
 
